@@ -228,6 +228,26 @@ def g_simplified_sum(rng, pool, n=None):
 def g_eq(rng):
     pool = g_pool(rng, 5)
     r = rng.random()
+    if r < 0.12:                        # corner cases of ==: zero coefficients, the empty sum, equal sets of different length
+        zero = lambda: [0, 0, 0, rng.choice(["int", "float", "complex"])]
+        w = rng.randrange(5)
+        if w == 0:
+            return dict(k="T", c=zero(), ops=g_ops(rng, pool, 3)), dict(k="T", c=zero(), ops=g_ops(rng, pool, 3))
+        if w == 1:
+            x, s = dict(k="T", c=zero() if rng.random() < 0.7 else g_coef(rng), ops=g_ops(rng, pool, 3)), dict(k="S", terms=[])
+            return (x, s) if rng.random() < 0.5 else (s, x)
+        if w == 2:
+            x, s = dict(k="N", c=zero() if rng.random() < 0.7 else g_coef(rng)), dict(k="S", terms=[])
+            return (x, s) if rng.random() < 0.5 else (s, x)
+        if w == 3:
+            x, n = dict(k="T", c=zero(), ops=g_ops(rng, pool, 2)), dict(k="N", c=zero())
+            return (x, n) if rng.random() < 0.5 else (n, x)
+        a = g_simplified_sum(rng, pool, rng.randint(1, 3))
+        b = perm_terms(rng, a)
+        if a["terms"]:
+            b["terms"].insert(rng.randrange(len(b["terms"]) + 1), dict(rng.choice(b["terms"])))
+        return (a, b) if rng.random() < 0.5 else (b, a)
+    r = rng.random()
     if r < 0.35:                        # simplified sum against a permutation / perturbation of itself
         a = g_simplified_sum(rng, pool)
         b = perm_terms(rng, a)
